@@ -362,4 +362,17 @@ pub fn run(r: &mut Runner) {
             }
         });
     }
+    {
+        let gs = crate::fx::generic_stream(if quick { 20000 } else { 2000000 }, 114, -40, 9);
+        let ngs = gs.len();
+        r.notes.push(format!("generic stream for exp/exp2/exp_m1: {} operands of a fixed Weyl sequence (full-size mantissas in both words, exponents -40..9)", ngs));
+        r.par("generic stream: exp/exp2/exp_m1", ngs.div_ceil(256), ngs as u64, |c, l| {
+            for i in (c * 256)..((c + 1) * 256).min(ngs) {
+                for call in 0..3 {
+                    let v = judge1(call, gs[i], Some(l));
+                    rec.record(l, (1u64 << 58) + (i * 3 + call) as u64, v);
+                }
+            }
+        });
+    }
 }
